@@ -601,21 +601,25 @@ def make_cornerstone(seed, tier, k, prop="C06"):
     # wrappers restrict the usable pool; use the base class whenever it accepts the entry
     a = g.new_op(0, fam, qual=_qual_for(fam, p), pi=p)
     intents = []
+    # the base requests of a cornerstone are generic in-region points at the parameter set's own time in most sessions
+    # (a session whose every call is refused for an out-of-region point shows nothing); special and non-finite points come
+    # in through the re-requests, and in the remaining sessions through the base request itself
+    base_generic = variant in ("two_times", "a_retry", "b_aborted") or rng.random() < 0.6
     if variant == "b_fails":
         b = g.new_op(1, fam_b, qual=_qual_for(fam_b, q), pi=q, bad="unknown")
     elif variant == "b_between":
-        pa, ta, la = g.request_points(a)
+        pa, ta, la = g.request_points(a, generic=base_generic)
         g.call_op(0, a, pa, ta, la)
         b = g.new_op(1, fam_b, qual=_qual_for(fam_b, q), pi=q)
     else:
         b = g.new_op(1, fam_b, qual=_qual_for(fam_b, q), pi=q)
     if variant != "b_between":
-        pa, ta, la = g.request_points(a)
+        pa, ta, la = g.request_points(a, generic=base_generic)
         first = g.call_op(0, a, pa, ta, la)
         if variant == "a_aborted":
             intents.append({"step": len(g.ops) - 1, "kinds": ["abort"], "u": fhex(rng.random()), "mode": "before", "exc": "RuntimeError"})
     if b is not None and b.alive:
-        pb, tb, lb = g.request_points(b)
+        pb, tb, lb = g.request_points(b, generic=base_generic)
         g.call_op(1, b, pb, tb, lb)
         if variant == "b_aborted":
             # B's call fails part-way (dependency failure, abort or allocation failure) between two calls of A
